@@ -11,7 +11,9 @@
        TRANSITIONS are queued" (do_send_deq, [qtr], do_send_queued), at most 20 messages
        per batch, the batch may end after any message (C11's over-approximation of the
        racy len(sendQueueChan)==0 test), the segment hand-off (do_send_seg) and the exit
-       on stopChan (do_exit GSend).  Message sizes are dropped (RequestNext and Done are
+       on stopChan (do_exit GSend).  Added since fix a8c9a5c: Protocol.sendInFlight
+       ([infl]: set in the critical section that takes a message out of the accounting,
+       cleared after the batch was handed to the muxer; WaitSendQueueDrained tests it).  Message sizes are dropped (RequestNext and Done are
        2 bytes: neither the segment limit nor PendingMessageByteLimit can trigger).
        The receive side is: recvLoop takes a message only while the engine state has
        server agency (that is what recvReadyChan encodes; C11 proves token/agency
@@ -60,7 +62,9 @@ Record eng := {
   wire : list (qmsg * bool);    (* handed to the muxer; the flag: did the client have agency
                                    (every RequestNext written so far answered by the server)
                                    at the moment the message was written *)
-  dropped : bool                (* ghost: sendLoop returned on stopChan with a non-empty batch *)
+  dropped : bool;               (* ghost: sendLoop returned on stopChan with a non-empty batch *)
+  infl : bool                   (* Protocol.sendInFlight (fix a8c9a5c): sendLoop holds dequeued messages
+                                   that have not been handed to the muxer yet *)
 }.
 Record ctl := {
   tp : stopph;
@@ -74,7 +78,8 @@ Record ctl := {
   enq_clean : bool;    (* ghost: when Done was enqueued the send queue was empty and sendLoop
                           was not inside a batch *)
   drain_clean : bool   (* ghost: when WaitSendQueueDrained reported "drained" sendLoop had
-                          finished its batch and handed the segment over *)
+                          finished its batch and handed the segment over; since fix a8c9a5c
+                          (sendInFlight) this is an invariant: C21_stop_drain_after_handoff *)
 }.
 Record xst := { b : st; budget : nat; e : eng; k : ctl }.
 
@@ -117,10 +122,10 @@ Definition set_tp (c : ctl) (t : stopph) : ctl :=
      timedout := timedout c; gaveup := gaveup c; enq_clean := enq_clean c; drain_clean := drain_clean c |}.
 Definition set_sp (x : eng) (p : sphase) : eng :=
   {| sq := sq x; qtr := qtr x; cur := cur x; tok := tok x; sp := p; batch := batch x; wire := wire x;
-     dropped := dropped x |}.
+     dropped := dropped x; infl := infl x |}.
 Definition push_sq (x : eng) (m : qmsg) : eng :=
   {| sq := sq x ++ [m]; qtr := qtr x; cur := cur x; tok := tok x; sp := sp x; batch := batch x; wire := wire x;
-     dropped := dropped x |}.
+     dropped := dropped x; infl := infl x |}.
 Definition mk (s : xst) (b' : st) (e' : eng) (k' : ctl) : xst := {| b := b'; budget := budget s; e := e'; k := k' |}.
 
 Section Limit.
@@ -151,10 +156,10 @@ Definition xbase (s : xst) (l : label) : option xst :=
         match step limit B l, inq B with
         | Some B', Await :: _ =>
             Some (mk s B' {| sq := sq E; qtr := qtr E; cur := PMustReply; tok := tok E; sp := sp E; batch := batch E;
-                             wire := wire E; dropped := dropped E |} K)
+                             wire := wire E; dropped := dropped E; infl := infl E |} K)
         | Some B', Reply _ :: _ =>
             Some (mk s B' {| sq := sq E; qtr := qtr E; cur := PIdle; tok := true; sp := sp E; batch := batch E;
-                             wire := wire E; dropped := dropped E |} K)
+                             wire := wire E; dropped := dropped E; infl := infl E |} K)
         | _, _ => None
         end
       else None
@@ -194,7 +199,7 @@ Definition xstep (s : xst) (l : xlabel) : option xst :=
   | XTakeTok =>
       match sp E with
       | SpWait => if tok E then Some (mk s B {| sq := sq E; qtr := qtr E; cur := cur E; tok := false; sp := SpHeld;
-                                                batch := batch E; wire := wire E; dropped := dropped E |} K)
+                                                batch := batch E; wire := wire E; dropped := dropped E; infl := infl E |} K)
                   else None
       | _ => None
       end
@@ -203,7 +208,7 @@ Definition xstep (s : xst) (l : xlabel) : option xst :=
       | SpHeld, m :: q =>
           match next_send (cur E) m with
           | Some n => Some (mk s B {| sq := sq E; qtr := q; cur := n; tok := tok E; sp := SpWait;
-                                      batch := batch E; wire := wire E; dropped := dropped E |} K)
+                                      batch := batch E; wire := wire E; dropped := dropped E; infl := infl E |} K)
           | None => Some (mk s B (set_sp E SpFail) K)
           end
       | _, _ => None
@@ -219,16 +224,16 @@ Definition xstep (s : xst) (l : xlabel) : option xst :=
                   match next_send (cur E) m with
                   | Some n => Some (mk s B {| sq := q; qtr := []; cur := n; tok := tok E; sp := SpBatch 1;
                                               batch := batch E ++ [(m, agency_now s)]; wire := wire E;
-                                              dropped := dropped E |} K)
+                                              dropped := dropped E; infl := true |} K)
                   | None => Some (mk s B {| sq := q; qtr := []; cur := cur E; tok := tok E; sp := SpFail;
-                                            batch := batch E; wire := wire E; dropped := dropped E |} K)
+                                            batch := batch E; wire := wire E; dropped := dropped E; infl := true |} K)
                   end
               | _ => None
               end
           | SpBatch cnt =>
               if cnt <? max_batch then
                 Some (mk s B {| sq := q; qtr := qtr E ++ [m]; cur := cur E; tok := tok E; sp := SpBatch (S cnt);
-                                batch := batch E ++ [(m, agency_now s)]; wire := wire E; dropped := dropped E |} K)
+                                batch := batch E ++ [(m, agency_now s)]; wire := wire E; dropped := dropped E; infl := true |} K)
               else None
           | _ => None
           end
@@ -237,7 +242,7 @@ Definition xstep (s : xst) (l : xlabel) : option xst :=
   | XSegOut =>
       match sp E with
       | SpSeg => Some (mk s B {| sq := sq E; qtr := qtr E; cur := cur E; tok := tok E; sp := SpWait; batch := [];
-                                 wire := wire E ++ batch E; dropped := dropped E |} K)
+                                 wire := wire E ++ batch E; dropped := dropped E; infl := false |} K)
       | _ => None
       end
   | XSendExit =>
@@ -247,7 +252,8 @@ Definition xstep (s : xst) (l : xlabel) : option xst :=
         | SpWait | SpHeld | SpBatch _ | SpSeg =>
             Some (mk s B {| sq := sq E; qtr := qtr E; cur := cur E; tok := tok E; sp := SpDead; batch := batch E;
                             wire := wire E;
-                            dropped := dropped E || match batch E with [] => false | _ => true end |} K)
+                            dropped := dropped E || match batch E with [] => false | _ => true end;
+                            infl := infl E |} K)
         | _ => None
         end
       else None
@@ -328,9 +334,11 @@ Definition xstep (s : xst) (l : xlabel) : option xst :=
       | _ => None
       end
   | XStopDrained =>
-      (* pendingSendBytes == 0 && len(sendQueueChan) == 0: everything was taken by sendLoop *)
+      (* pendingSendBytes == 0 && len(sendQueueChan) == 0 && !sendInFlight: everything was taken by
+         sendLoop AND the batch it was taken into has been handed to the muxer *)
       match tp K, sq E with
       | TDrain, [] =>
+          if infl E then None else
           Some (mk s B E {| tp := TUnbusy; sbusy := sbusy K; closed := closed K; pstop := pstop K;
                             sldead := sldead K; rdead := rdead K; timedout := timedout K; gaveup := gaveup K;
                             enq_clean := enq_clean K; drain_clean := negb (in_batch (sp E)) |})
@@ -384,7 +392,7 @@ End Limit.
    the first RequestNext has been ENQUEUED (not necessarily written) *)
 Definition xinit (p : bool) (bud : nat) : xst :=
   {| b := init_p p; budget := bud;
-     e := {| sq := [QReq]; qtr := []; cur := PIdle; tok := true; sp := SpWait; batch := []; wire := []; dropped := false |};
+     e := {| sq := [QReq]; qtr := []; cur := PIdle; tok := true; sp := SpWait; batch := []; wire := []; dropped := false; infl := false |};
      k := {| tp := TNone; sbusy := false; closed := false; pstop := false; sldead := false; rdead := false;
              timedout := false; gaveup := false; enq_clean := true; drain_clean := true |} |}.
 
@@ -412,7 +420,7 @@ Definition stopped_end (s : xst) : Prop :=
 
 (* the side condition excluding exactly the known findings, as recorded on the run *)
 Definition side_ok (s : xst) : bool :=
-  negb (gaveup (k s)) && enq_clean (k s) && drain_clean (k s).
+  negb (gaveup (k s)) && enq_clean (k s).
 
 (* ---- correspondence of the send path: the chain-sync segments the client writes to the
    connection (RequestNext / Done only), interleaved with the server's replies.  What every
